@@ -32,6 +32,7 @@ type Frame struct {
 	top       bool
 	depth     int
 	spec      *FuncSpec
+	overrideRes Val // result of the contract call being applied, when it is a known function of the arguments (trusted pure)
 	retBlock  int // SSA block of the return instruction being checked (names return-site obligations)
 	li        *loopInfo
 	returns   []retInfo
